@@ -240,12 +240,12 @@ func init() {
 }
 
 func ruleC01(prog *Program, rep *Report) {
-	rep.Rules = append(rep.Rules, "A-accept: in single-document mode the extracted machine and the RFC 8259 reference agree on every byte: no step where the machine continues and the reference is dead (accepts-dead), none where the machine errors and the reference lives (rejects-live), equal verdicts at end of input in every reachable state (eof-accept/eof-reject), no early return, container push/pop in lock-step (stack-desync)")
+	rep.Rules = append(rep.Rules, "A-accept: in single-document mode the extracted machine and the RFC 8259 reference agree on every byte: no step where the machine continues and the reference is dead (accepts-dead), none where the machine errors and the reference lives (rejects-live), equal verdicts at end of input in every reachable state (eof-accept/eof-reject), no early return, container push/pop in lock-step (stack-desync); an arm that can panic, skip a byte for lack of a case or re-dispatch forever neither accepts nor rejects and is a violation too")
 	rep.Explain(engineAExplanation)
 	rep.Explain("C01 decides the accept language of oj.Parser (Parse, ParseReader), oj.Validator, oj.Tokenizer and gen.Parser with OnlyOne=true. Distinct non-trivial cases are product states; obligations are (state, byte class) steps plus end-of-input checks. Not covered: faithfulness of the compiled code to Go semantics; the BOM preamble is checked by rule A-bom; reader errors other than EOF.")
 	rep.Assumptions = append(rep.Assumptions, "Go semantics of the interpreted statement forms", "callbacks and handler methods do not modify the parser", "a type switch over a call result lists every dynamic type the callee returns")
 	results := exploreFrontEnds(prog, jsonFrontEnds, []bool{false}, false)
-	applyParseResults(rep, results, kindsAccept, "A-accept", 18)
+	applyParseResults(rep, results, union(kindsAccept, kindsPanic), "A-accept", 18)
 	ruleBOM(prog, rep)
 }
 
@@ -331,7 +331,7 @@ func ruleC03(prog *Program, rep *Report) {
 	rep.Explain("C03 decides agreement of the strict-JSON front-ends as acceptors and event sources under every chunking, in single- and multi-document mode (the multi-document reference is: a sequence of JSON values optionally separated by whitespace; a top-level number ends at whitespace or end of input), and the structural part of sen.Parser/sen.Tokenizer agreement (no silently skipped action code). Not covered: equality of the value trees (values are Top in the abstract domain), alt.Builder reconstruction, Simplify, and JSON-subset-of-SEN acceptance (the SEN helpers' mode depends on the build stack, which the domain does not model).")
 	rep.Assumptions = append(rep.Assumptions, "Go semantics of the interpreted statement forms", "callbacks and handler methods do not modify the parser", "a type switch over a call result lists every dynamic type the callee returns")
 	results := exploreFrontEnds(prog, jsonFrontEnds, []bool{false, true}, false)
-	applyParseResults(rep, results, union(kindsAccept, kindsEvents, map[string]bool{"stale-scratch": true}), "A-agree", 18)
+	applyParseResults(rep, results, union(kindsAccept, kindsEvents, kindsPanic, map[string]bool{"stale-scratch": true}), "A-agree", 18)
 	sres := exploreFrontEnds(prog, senFrontEnds, []bool{false, true}, true)
 	applyParseResults(rep, sres, map[string]bool{"no-arm": true}, "A-noarm", 12)
 	ruleReaderLoops(prog, rep)
